@@ -35,9 +35,8 @@ BUDGET_S = {'quick': 3600, 'thorough': 14400}
 ASSUMPTIONS = [
     'persistable domain: referential values resolve or are null; identifying values of non-nullable types (integer, real, '
     'boolean) avoid the serialised null when an unlinked referring instance exists; no inf/nan; names do not lex as '
-    'relationship numbers (R<n>) ; phrases contain no lone quote: serialize_association writes a phrase verbatim between quotes and the '
-    'loader takes it verbatim (no escaping in either direction), so a doubled quote inside a phrase is in the domain and stays '
-    'doubled, a single one (PHRASE_EXCLUDED) cannot be written',
+    'relationship numbers (R<n>); phrases may hold quotes, single or doubled (a lone quote could not be persisted before the '
+    'repair F-C01b: it is written doubled and read back undoubled, like quotes in string values)',
     'carriage returns inside strings are compared on the string routes only (text-mode file reading normalises them)',
     'ids are below 2^128',
     'link family: besides the shared association shapes, key types, composite keys and all cardinalities: four schemas in which '
@@ -70,11 +69,11 @@ INTS = [0, 1, -1, 2 ** 31, -2 ** 31, 2 ** 63, -2 ** 63, 2 ** 64 + 1, -(2 ** 64 +
 REALS = [0.0, -0.0, 0.5, -1.5, 1e-7, 123456.1234565, 1e15 + 0.5, 1e22, -1e300]
 IDS = [0, 1, 2 ** 64, 2 ** 128 - 1]
 BOOLS = [False, True]
-# association phrases (both navigation directions); the format has no escape for a phrase, so a lone quote is not persistable
-PHRASES = ['%', '%%', '%s', 'owns 100% of', 'taxes (%d, %(k)s)', "it''s", "''", 'a; b', '-- c', 'x\ny', '\t\\', 'x\x00"q"', '\xe9 \u20ac', "'' TO 1 A (Id)",
+# association phrases (both navigation directions)
+PHRASES = ['%', '%%', '%s', 'owns 100% of', 'taxes (%d, %(k)s)', "it''s", "''", "it's", "'", "a'", "'b''", 'a; b', '-- c', 'x\ny', '\t\\', 'x\x00"q"', '\xe9 \u20ac', "'' TO 1 A (Id)",
            ' PHRASE ']
-PHRASE_ALPHABET = ['%', 's', "''", ' ', '(', ';', '-', '\n', '"', '\xe9', ',', 'd']
-PHRASE_EXCLUDED = ["'"]        # serialize_association does not double it, the loader would not undouble it: outside the domain
+PHRASE_ALPHABET = ['%', 's', "'", ' ', '(', ';', '-', '\n', '"', '\xe9', ',', 'd']
+PHRASE_EXCLUDED = []           # (a lone quote used to be excluded: F-C01b, repaired in /repo by f86b6ef)
 RESERVED = ['CREATE', 'FALSE', 'FROM', 'INDEX', 'INSERT', 'INTO', 'ON', 'PHRASE', 'REF_ID', 'ROP', 'TABLE', 'TO', 'TRUE',
             'UNIQUE', 'VALUES', 'M', 'MC', 'create', 'Values', 'Rop']
 
